@@ -235,11 +235,19 @@ def run_ghist(env, c):
     text = [b"l1", b"l2"]
     disk = b"l1\nl2\n"
     newer = False
-    script = "rs a\nx\n.\n"
+    script = "rs a\nx\n.\n" + ("se aw\n" if c.get("aw") else "")
     expect = []
     ext_n = 0
     recorded_now = False
+    dirty = False
     for i, st_ in enumerate(c["steps"]):
+        if st_ == "leave":
+            # leaving a modified buffer (with autowrite: an implicit write without '!') while the file is newer on disk: refused,
+            # the file stays as it is - also at the second attempt
+            if newer and dirty:
+                script += "ec @@A%d@@\ne g\nec @@B%d@@\nrx a cp f snap%d\n" % (i, i, i)
+                expect.append((i, "leave", disk))
+            continue
         if st_ == "ext":
             ext_n += 1
             # newer than what the editor recorded, but - while the editor has not written the file itself - older than "now":
@@ -254,6 +262,7 @@ def run_ghist(env, c):
         elif st_ == "edit":
             script += "$a\nt%d\n.\n" % i
             text.append(b"t%d" % i)
+            dirty = True
         elif st_ in ("wown", "wownf"):
             script += "ec @@A%d@@\nw%s\nec @@B%d@@\nrx a cp f snap%d\n" % (i, "!" if st_ == "wownf" else "", i, i)
             refused = newer and st_ == "wown"
@@ -261,6 +270,7 @@ def run_ghist(env, c):
                 disk = b"".join(l + b"\n" for l in text)
                 newer = False
                 recorded_now = True
+                dirty = False
             expect.append((i, refused, disk))
     r = runner.run_editor(env.paths["vi"], ["-s", "-e", "f"], script.encode() + runner.EX_TRAILER, d, want_stats=False)
     nt = any(e[1] for e in expect)
@@ -274,6 +284,11 @@ def run_ghist(env, c):
         m = re.search(r"@@A%d@@(.*?)@@B%d@@" % (i, i), out, re.S)
         seg = m.group(1) if m else ""
         got = runner.read_file(d, "snap%d" % i)
+        if refused == "leave":
+            if got != want:
+                return Outcome(False, nt, cl, detail={"why": "step %d: leaving the modified buffer (:e g%s) replaced the file although it was modified from outside" %
+                                                      (i, ", autowrite set" if c.get("aw") else ""), "steps": c["steps"], "file": got, "expected_untouched": want})
+            continue
         if refused:
             if got != want:
                 return Outcome(False, nt, cl, detail={"why": "step %d: a plain :w replaced the file although it was modified from outside since the editor "
@@ -283,7 +298,7 @@ def run_ghist(env, c):
         else:
             if got != want:
                 return Outcome(False, nt, cl, detail={"why": "step %d: allowed write did not produce the buffer's lines" % i, "steps": c["steps"], "file": got, "want": want})
-    return Outcome(True, nt, cl, key=",".join(c["steps"]))
+    return Outcome(True, nt, cl + (["autowrite"] if c.get("aw") else []), key=",".join(c["steps"]) + ("|aw" if c.get("aw") else ""))
 
 
 def run_case(env, c):
@@ -303,8 +318,8 @@ def rnd_case(draw):
             "plan": [list(p) for p in sorted(set(draw(st.lists(plan_item, min_size=2, max_size=4))))]}
 
 
-ghist_case = st.lists(st.sampled_from(["ext", "ext", "wother", "wother", "wother_plain", "edit", "edit", "wown", "wown", "wownf"]), min_size=2, max_size=10).map(
-    lambda l: {"kind": "ghist", "steps": l})
+ghist_case = st.tuples(st.lists(st.sampled_from(["ext", "ext", "wother", "wother", "wother_plain", "edit", "edit", "wown", "wown", "wownf", "leave", "leave"]),
+                                 min_size=2, max_size=10), st.booleans()).map(lambda t: {"kind": "ghist", "steps": t[0], "aw": t[1]})
 
 
 def strategy(tier):
